@@ -315,6 +315,14 @@ def run(rec, shard, nshards, t):
         depth = rnd.randint(1, 4 if t == 'quick' else 5)
         typ = rnd.choice('BBBNS')
         e = g.expr(typ, depth)
+        toplevel = False
+        if i % 9 == 0:
+            # a whole match condition written WITHOUT parentheses: precedence (and binds tighter than or, the conditional expression loosest) decides
+            lit = g.q(rnd.choice(['NETFLIX', 'COSTCO', 'ZZZ', 'UBER', 'star']))
+            e = rnd.choice(['contains(%s) and %s or %s', 'contains(%s) and %s if %s else %s', '%s or contains(%s) and %s', 'not contains(%s) and %s or %s'])
+            e = e % tuple([lit if k == 0 or (e.startswith('%s or') and k == 1) else g.B(1) for k in range(e.count('%s'))]) if not e.startswith('%s or') else \
+                e % (g.B(1), lit, g.B(1))
+            typ, toplevel = 'B', True
         try:
             ast.parse(e, mode='eval')
         except SyntaxError:
@@ -325,7 +333,7 @@ def run(rec, shard, nshards, t):
         txs = rnd.sample(TXNS, 8 if t != 'quick' else 5)
         for ti, txn in enumerate(txs):
             rows = ROWSETS[0] if ti % 3 else rnd.choice(ROWSETS)
-            iv = judge(rec, ep, e, txn, variables, rows, engine=(typ == 'B' and ti == 0 and i % 4 == 0))
+            iv = judge(rec, ep, e, txn, variables, rows, engine=(typ == 'B' and (toplevel or (ti == 0 and i % 4 == 0))))
             outs.add(iv)
         if len(outs) > 1 and nontrivial(e):
             rec.interesting('r:' + e)
